@@ -85,6 +85,15 @@ Theorem C09_removed_on_close n cid r c :
   forall l, ~ List.In (c_host c, l) (n_peer_waiting (remove_conn n cid r)).
 Proof. exact (@NodeC.C09_removed_on_close n cid r c). Qed.
 
+(* C09: an answer that cannot be routed although some host was waiting for its pair (no connection
+   of that host, or the connection is not ready) releases the pair's entry of the origin table *)
+Theorem C09_unroutable_releases_origin n m :
+  fst (route_answer n m) = None ->
+  List.find (fun e => mem_zz (o_hbh m, o_e2e m) (snd e)) (n_peer_waiting n) <> None ->
+  forall h e x, List.In (h, e, x) (n_origin_waiting (snd (route_answer n m))) ->
+                ~ (h = o_hbh m /\ e = o_e2e m).
+Proof. exact (@NodeC.C09_unroutable_releases_origin n m). Qed.
+
 (* ... and when the application's handler raises, the request is delivered and answered 5012 on the
    same connection, and no pair is left behind *)
 Theorem C09_raise_leaves_no_entry n cid m n' outs :
@@ -139,6 +148,7 @@ Print Assumptions FromNodeC.C09_gone_is_error.
 Print Assumptions FromNodeC.C09_second_fails.
 Print Assumptions FromNodeC.C09_second_is_error.
 Print Assumptions FromNodeC.C09_removed_on_close.
+Print Assumptions FromNodeC.C09_unroutable_releases_origin.
 Print Assumptions FromNodeC.C09_raise_leaves_no_entry.
 Print Assumptions FromNodeE.C07_history_app_answers.
 Print Assumptions FromNodeE.C07_history_app_answers_at.
